@@ -61,10 +61,45 @@ def flush_contract():
         I.lib["sorted"] = h_sorted
 
         def ordered_dict(I, st, fv, args, kwargs, ctx):
-            r = I.alloc_dict(st, cls="OrderedDict", keys=I.U.fresh_seq("evkeys"),
-                             vals=z3.Const("evvals!%d" % I.new_oid(), z3.ArraySort(vm.V, vm.V)))
+            # OrderedDict(<pairs built from the queued events>): the last pair of a key wins
+            from pyvc import objects
+            r = objects.lastwins_dict(I, st, args[0], cls="OrderedDict") if args else None
+            if r is None:
+                raise OutOfReach("the coalescing table is not built from a pure map over the queued events: outside the modelled shapes")
             return [(st, r)]
         I.lib["new:OrderedDict"] = ordered_dict
+
+        def update_event_type(I, st, fv, args, kwargs, ctx):
+            # callee contract (verified on its own in C03): a typed copy of the event.  Here: WHICH
+            # event is handed over for the parameter name at hand
+            from pyvc.objects import sym_field
+            watcher, event = I.term(args[0]), I.term(args[1])
+            obs = ctx.get("obligations")
+            nm = st.env.get("name")
+            if obs is not None and nm is not None:
+                Fn, Fw = sym_field(I, st, "name"), sym_field(I, st, "what")
+                looks = st.ghost.get("$lastwins_lookup", [])
+                ed = st.env.get("event_dict")
+                lw = st.heap[ed.oid].fields.get("$lastwins") if isinstance(ed, Ref) else None
+                if lw is None or not looks:
+                    raise OutOfReach("the coalescing table is not a last-wins mapping over the queued events: outside the modelled shapes")
+                rs = lw[0]
+                ok_last = z3.BoolVal(False)
+                if looks and rs is not None:
+                    kt, y, pre, post = looks[-1]
+                    later = I.U.fresh("a_later_event")
+                    ok_last = z3.And(event == y, rs == z3.Concat(pre, z3.Unit(y), post),
+                                     z3.Implies(z3.Contains(post, z3.Unit(later)),
+                                                z3.Not(z3.And(z3.Select(Fn, later) == I.term(nm), z3.Select(Fw, later) == z3.Select(Fw, watcher)))))
+                    # ∀-elimination of the lookup's fold at the arbitrary later event
+                    fl = [f for n_, f in I.U.__dict__.get("folds", {}).items() if n_.startswith("no_element_has_key_")]
+                    st.pc += [z3.Implies(z3.And(f.sfn(post), z3.Contains(post, z3.Unit(later))), f.pred(later)) for f in fl]
+                obs.append(("coalescing/the event handed to a watcher for one of its parameters is a queued event of that parameter and of the watcher's `what`",
+                            st.fork(), z3.And(z3.Select(Fn, event) == I.term(nm), z3.Select(Fw, event) == z3.Select(Fw, watcher))))
+                obs.append(("coalescing/… and it is the LAST such event queued in the round", st.fork(), ok_last))
+            r = I.U.fresh("typed_event")
+            return [(st, Sym(r))]
+        I.contracts["Parameters._update_event_type"] = update_event_type
 
         def new_event(I, st, fv, args, kwargs, ctx):
             r = I.alloc_obj(st, "Event", lazy=False, label="typed_event")
@@ -167,7 +202,54 @@ def flush_contract():
     }
     c = FunctionContract("param.parameterized:Parameters._batch_call_watchers", PROP, setup, post, loops=loops,
                          configure=configure, name="Parameters._batch_call_watchers[flush]")
+    c.static_replay = FLUSH_REPLAY
+    c.static_witness = "batches mixing value and slot ('bounds') changes of one parameter, several sets of one parameter, watchers of different precedence"
     return c
+
+
+FLUSH_REPLAY = '''import sys, os
+sys.path.insert(0, os.environ.get('PYVC_REPO', '/repo'))
+import param
+bad = []
+class P(param.Parameterized):
+    x = param.Number(0, bounds=(-10, 10))
+    y = param.Number(0)
+def run(order):
+    p = P(); log = []
+    p.param.watch(lambda *ev: log.append(('value', [(e.name, e.what, e.old, e.new) for e in ev])), ['x', 'y'], precedence=1)
+    p.param.watch(lambda *ev: log.append(('bounds', [(e.name, e.what, e.old, e.new) for e in ev])), ['x'], what='bounds', precedence=0)
+    with param.parameterized.batch_call_watchers(p):
+        for step in order:
+            if step == 'v1': p.x = 1
+            elif step == 'v2': p.x = 2
+            elif step == 'b': p.param.x.bounds = (0, 100)
+            elif step == 'y': p.y = 7
+    return log
+for order in (['v1', 'b'], ['b', 'v1'], ['v1', 'b', 'v2'], ['v1', 'v2'], ['y', 'v1', 'b'], ['b', 'y']):
+    log = run(order)
+    kinds = [k for k, _ in log]
+    want_kinds = (['bounds'] if 'b' in order else []) + (['value'] if any(s in order for s in ('v1', 'v2', 'y')) else [])
+    if kinds != want_kinds:
+        bad.append('%r: watchers ran %r, expected %r (each once, in precedence order)' % (order, kinds, want_kinds)); continue
+    for kind, evs in log:
+        for (name, what, old, new) in evs:
+            if what != kind:
+                bad.append('%r: the %s watcher received a %r event of %s: %r -> %r' % (order, kind, what, name, old, new))
+        names = [e[0] for e in evs]
+        if len(names) != len(set(names)):
+            bad.append('%r: the %s watcher received several events for one parameter: %r' % (order, kind, evs))
+        if kind == 'value':
+            lastx = [s for s in order if s in ('v1', 'v2')]
+            for (name, what, old, new) in evs:
+                if name == 'x' and lastx and new != {'v1': 1, 'v2': 2}[lastx[-1]]:
+                    bad.append('%r: the value watcher received new=%r for x, the last assignment was %s' % (order, new, lastx[-1]))
+if bad:
+    print('REPRODUCED: C04 flush does not hand each watcher the last queued event of each of its parameters (and of its kind):')
+    for b in bad[:6]:
+        print('  ', b)
+    sys.exit(1)
+print('NOT-REPRODUCED'); sys.exit(0)
+'''
 
 
 _c04_base = contracts
